@@ -61,6 +61,11 @@ func (endpoint *PairVerify) ServeHTTP(response http.ResponseWriter, request *htt
 	} else {
 		io.Copy(response, out.BytesBuffer())
 
+		if out.GetByte(pair.TagErrCode) != pair.ErrCodeNo.Byte() {
+			// verification failed, the connection stays unverified
+			return
+		}
+
 		// When key verification is done, switch to a secure session
 		// based on the negotiated shared session key
 		b := out.GetByte(pair.TagSequence)
